@@ -834,7 +834,8 @@ void GridFourier::setAnisotropicRefinement(TypeDepth type, int min_growth, int o
     int level = 0;
     do{
         updateGrid(++level, type, weights, level_limits);
-    }while(getNumNeeded() < min_growth);
+    }while((getNumNeeded() < min_growth) &&
+           !MultiIndexManipulations::limitsSaturated(level_limits, [](int l)->int{ return OneDimensionalMeta::getNumPoints(l, rule_fourier); }, getNumLoaded() + getNumNeeded()));
 }
 
 void GridFourier::clearRefinement(){
